@@ -297,7 +297,9 @@ func TestC17Snapshots(t *testing.T) {
 			case "cert-cid":
 				reencodeCert(certIdx, func(c *certs.FinalityCertificate) { c.SupplementalData.PowerTable = vgen.DetCid("bad", ci) })
 			case "cert-instance":
-				reencodeCert(certIdx, func(c *certs.FinalityCertificate) { c.GPBFTInstance += uint64(rapid.IntRange(1, 2).Draw(t, label+".di")) })
+				reencodeCert(certIdx, func(c *certs.FinalityCertificate) {
+					c.GPBFTInstance += uint64(rapid.IntRange(1, 2).Draw(t, label+".di"))
+				})
 			case "manifest-first":
 				x := manifest.LocalDevnetManifest()
 				x.InitialInstance = first + 1
